@@ -388,6 +388,25 @@ static void wrapperCase(const std::vector<SlotCfg>& sl, int variant, bool sub, c
   c.site("ReparametrizationFunctionWrapper::getValue");
   double val = w->getValue(), want = PolyFn::poly(fv);
   if (!(val == want) && !(std::isnan(val) && std::isnan(want))) c.fail("wrapper|value", cfg + ": wrapper value " + num(val) + ", function at its parameters " + num(want));
+  // --- the wrapped function has another owner, who moves it back to where it started; evaluating the wrapper once more at the transformed
+  //     point it already holds must bring the function back to the back-transformed point ("evaluated at any transformed point equals the
+  //     original function at the back-transformed point" -- whatever was evaluated in between)
+  {
+    ParameterList mv; for (int i = 0; i < n; ++i) { Parameter q(f->getParameters()[(size_t)i]); q.setValue(v0[i]); mv.addParameter(q); }
+    c.site("wrapped function moved directly"); f->setParameters(mv);
+    bool moved = f->vals() != fv;
+    c.site("ReparametrizationFunctionWrapper::f(same point)");
+    double again = 0; bool r2 = false; try { again = w->f(pl); } catch (bpp::Exception& e) { r2 = true; c.fail("wrapper|update-raises", cfg + " (re-evaluation at the held point): " + line1(e.what())); }
+    if (!r2) {
+      std::vector<double> fv2 = f->vals(); bool same = true;
+      for (int i = 0; i < n; ++i) if (wrapped[i] && (onlySlot < 0 || onlySlot == i) && fv2[i] != fv[i]) same = false;
+      if (!same) c.fail("wrapper|function-not-at-back-transformed-point|re-evaluated-at-the-held-point-after-the-function-was-moved", cfg + ": function now at " + vf::vstr(fv2) + ", was at " + vf::vstr(fv) + " after the first evaluation of the same transformed point");
+      else if (!(again == PolyFn::poly(fv2)) && !(std::isnan(again) && std::isnan(PolyFn::poly(fv2)))) c.fail("wrapper|value", cfg + " (re-evaluation): " + num(again) + " vs " + num(PolyFn::poly(fv2)));
+      if (moved) c.tag("wrapper:re-evaluated-after-external-move");
+      // the coordinates that were not part of the update are where the other owner left them: put the function back for the clauses below
+      ParameterList back; for (int i = 0; i < n; ++i) { Parameter q(f->getParameters()[(size_t)i]); q.setValue(fv[i]); back.addParameter(q); } f->setParameters(back);
+    }
+  }
   // --- chain rule (exact composition; T', T'' are the values validated against finite differences in part 1)
   bool nontriv = false; for (int i = 0; i < n; ++i) if (wrapped[i] && sl[i].kind < NONE && (onlySlot < 0 || onlySlot == i)) nontriv = true;
   if (w1) for (int i = 0; i < n; ++i) if (wrapped[i]) {
